@@ -54,6 +54,7 @@ impl Src for K {
 pub struct Replay {
     vals: std::collections::VecDeque<Vec<u8>>,
     pub reached: bool,
+    pub assumes: u32,
 }
 
 #[cfg(not(kani))]
@@ -68,7 +69,7 @@ impl Replay {
             if e.trim().is_empty() { continue; }
             q.push_back(e.split(',').map(|b| b.trim().parse::<u8>().expect("byte")).collect());
         }
-        (name, Replay { vals: q, reached: false })
+        (name, Replay { vals: q, reached: false, assumes: 0 })
     }
     fn next<const N: usize>(&mut self) -> [u8; N] {
         let v = self.vals.pop_front().unwrap_or_else(|| {
@@ -106,8 +107,9 @@ impl Src for Replay {
         a
     }
     fn assume(&mut self, c: bool) {
+        self.assumes += 1;
         if !c {
-            println!("REPLAY-ASSUMPTION-VIOLATED: the recorded values do not satisfy the harness' assumptions");
+            println!("REPLAY-ASSUMPTION-VIOLATED: the recorded values do not satisfy assumption #{} of the harness ({} values left)", self.assumes, self.vals.len());
             std::process::exit(3)
         }
     }
